@@ -309,6 +309,8 @@ let run_bw (c : case) =
         let rest_ok = (rest = nlist c.trail) in
         let re = M.bw_serialize sv other in
         pr "RT %d %d %016Lx %d\n" consumed (if rest_ok then 1 else 0) (hash_nlist re) (if other = a then 1 else 0);
+        pr "RSTATS %d %d %d %d\n" (int_of_n other.M.bw_num_states) (List.length other.M.bw_states)
+          (int_of_n (M.bw_heap_bytes (n_of_int osz) other)) osz;
         if String.contains c.ops 'S' then bw_searches other c "R"
       | M.Panic _ -> pr "RT panic\n"
       | _ -> pr "RT !bad\n"
@@ -447,6 +449,8 @@ let run_cw (c : case) =
         let rest_ok = (rest = nlist c.trail) in
         let re = M.cw_serialize sv other in
         pr "RT %d %d %016Lx %d\n" consumed (if rest_ok then 1 else 0) (hash_nlist re) (if other = a then 1 else 0);
+        pr "RSTATS %d %d %d %d\n" (int_of_n other.M.cw_num_states) (List.length other.M.cw_states)
+          (int_of_n (M.cw_heap_bytes (n_of_int osz) other)) osz;
         if String.contains c.ops 'S' then cw_searches other c "R"
       | M.Panic _ -> pr "RT panic\n"
       | _ -> pr "RT !bad\n"
